@@ -121,6 +121,47 @@ func nibScalars(thorough bool) [][]byte {
 	return out
 }
 
+// carryRunScalars: a run of one digit value with the digit directly below it chosen to send (or
+// not send) a carry into the run - the patterns on which a signed-digit recoding that handles
+// carries limb by limb (56-bit, 30-bit) or with a bias trick differs from the serial one. Runs
+// start at every nibble; lengths around one limb of either layout, and to the top.
+func carryRunScalars(thorough bool) [][]byte {
+	var out [][]byte
+	set := func(b []byte, pos int, v byte) {
+		if pos%2 == 0 {
+			b[pos/2] = b[pos/2]&0xf0 | v
+		} else {
+			b[pos/2] = b[pos/2]&0x0f | v<<4
+		}
+	}
+	lens := []int{7, 8, 14, 15}
+	if thorough {
+		lens = []int{6, 7, 8, 9, 13, 14, 15, 16, 28}
+	}
+	for _, rv := range []byte{7, 8, 15, 0} {
+		for _, below := range []byte{8, 15, 7} {
+			for _, fill := range []byte{0, 0xa} {
+				for start := 1; start < 64; start++ {
+					ls := append([]int{}, lens...)
+					ls = append(ls, 64-start)
+					for _, l := range ls {
+						if start+l > 64 {
+							continue
+						}
+						b := bytes.Repeat([]byte{fill | fill<<4}, 32)
+						for p := start; p < start+l; p++ {
+							set(b, p, rv)
+						}
+						set(b, start-1, below)
+						out = append(out, b)
+					}
+				}
+			}
+		}
+	}
+	return out
+}
+
 func nielsOf(p ref.Point) (ysubx, xaddy, t2d *big.Int) {
 	x, y := p.Affine()
 	ysubx = new(big.Int).Sub(y, x)
@@ -198,7 +239,7 @@ func jobC16(c *rt.Ctx) {
 		}
 	}
 	// ---- fixed base ------------------------------------------------------------------------------------
-	nib := nibScalars(c.Thorough())
+	nib := append(nibScalars(c.Thorough()), carryRunScalars(c.Thorough())...)
 	for _, x := range []*big.Int{big.NewInt(0), big.NewInt(1), big.NewInt(2), big.NewInt(8), badd(ref.L, -1), pow2(252), badd(pow2(255), -8), pow2(254), badd(pow2(254), 8), a0, a1} {
 		nib = append(nib, ref.ToLE(x, 32))
 	}
